@@ -732,6 +732,9 @@ pub fn replay_bounded(unit: &str) -> Option<i32> {
         "b_c06_pipeline_defaults" => run_grid(unit, contract_pipeline_integer_defaults, limit),
         "b_c03_pipeline_tag_matrix" => run_grid(unit, contract_pipeline_tag_matrix, limit),
         "b_c06_pipeline_widths" => run_grid(unit, contract_pipeline_integer_widths, limit),
+        "b_c02_pipeline_type_shapes" => run_grid(unit, contract_pipeline_type_shapes_quick, limit),
+        "b_c02_pipeline_type_shapes_full" => run_grid(unit, contract_pipeline_type_shapes_full, limit),
+        "b_c04_pipeline_set_expressions" => run_grid(unit, contract_pipeline_set_expressions, limit),
         "b_c05_pipeline_extensibility" => run_grid(unit, contract_pipeline_extensibility, limit),
         "b_c14_pipeline_enumerated" => run_grid(unit, contract_pipeline_enumerated_quick, limit),
         "b_c14_pipeline_enumerated_full" => run_grid(unit, contract_pipeline_enumerated_full, limit),
@@ -2730,6 +2733,144 @@ pub fn contract_pipeline_extensibility<C: Ctx>(cx: &mut C) {
     { let _ = cx; }
 }
 
+/// C04 — subtype expressions as TEXT through the whole pipeline (constraint parser -> linker -> fold -> annotation): up to
+/// three operands (single values, ranges, MIN.. / ..MAX) joined by | ^ EXCEPT in either spelling, optional outer marker, on an
+/// INTEGER component, an INTEGER type assignment and inside SIZE(..) of an OCTET STRING component; the emitted annotation is
+/// the PER-visible effective constraint (X.691 §10.3: unions take the hull, intersections intersect, EXCEPT is ignored, with
+/// the X.680 precedence EXCEPT > INTERSECTION > UNION), flagged extensible exactly with the marker.
+pub fn contract_pipeline_set_expressions<C: Ctx>(cx: &mut C) {
+    #[cfg(not(kani))]
+    {
+        #[derive(Clone, Copy, PartialEq, Debug)]
+        struct R { lo: Option<i128>, hi: Option<i128>, empty: bool }
+        let operands: [(&str, R); 8] = [
+            ("0", R { lo: Some(0), hi: Some(0), empty: false }), ("5", R { lo: Some(5), hi: Some(5), empty: false }), ("200", R { lo: Some(200), hi: Some(200), empty: false }),
+            ("0..5", R { lo: Some(0), hi: Some(5), empty: false }), ("0..200", R { lo: Some(0), hi: Some(200), empty: false }), ("5..200", R { lo: Some(5), hi: Some(200), empty: false }),
+            ("MIN..5", R { lo: None, hi: Some(5), empty: false }), ("0..MAX", R { lo: Some(0), hi: None, empty: false }),
+        ];
+        let position = cx.choose(3); // 0 INTEGER component, 1 INTEGER type assignment, 2 SIZE(..) of an OCTET STRING component
+        let n = 1 + cx.choose(3);
+        let mut texts: Vec<&str> = vec![];
+        let mut rs: Vec<R> = vec![];
+        let mut ops: Vec<usize> = vec![];
+        for i in 0..n {
+            let (t, r) = operands[cx.choose(8)];
+            if !cx.assume(position != 2 || r.lo.is_some()) { return; }
+            texts.push(t); rs.push(r);
+            if i + 1 < n { ops.push(cx.choose(3)); }
+        }
+        let word = cx.any_bool();
+        let marker = cx.any_bool();
+        let spell = |o: usize| if word { [" UNION ", " INTERSECTION ", " EXCEPT "][o] } else { [" | ", " ^ ", " EXCEPT "][o] };
+        let mut expr = String::from(texts[0]);
+        for i in 1..n { expr.push_str(spell(ops[i - 1])); expr.push_str(texts[i]); }
+        // reference: EXCEPT first (drops its right operand), then INTERSECTION, then UNION
+        let meet = |a: R, b: R| { let lo = match (a.lo, b.lo) { (Some(x), Some(y)) => Some(x.max(y)), (x, None) => x, (None, y) => y }; let hi = match (a.hi, b.hi) { (Some(x), Some(y)) => Some(x.min(y)), (x, None) => x, (None, y) => y }; R { lo, hi, empty: a.empty || b.empty || matches!((lo, hi), (Some(l), Some(h)) if l > h) } };
+        let hull = |a: R, b: R| R { lo: match (a.lo, b.lo) { (Some(x), Some(y)) => Some(x.min(y)), _ => None }, hi: match (a.hi, b.hi) { (Some(x), Some(y)) => Some(x.max(y)), _ => None }, empty: false };
+        let mut vals = rs.clone();
+        let mut os = ops.clone();
+        let mut degenerate = false;   // an intersection inside the expression is empty: X.680 leaves such expressions to the user
+        for level in [2usize, 1, 0] {
+            let mut i = 0;
+            while i < os.len() {
+                if os[i] == level {
+                    let r = match level { 2 => vals[i], 1 => meet(vals[i], vals[i + 1]), _ => hull(vals[i], vals[i + 1]) };
+                    if r.empty { degenerate = true; }
+                    vals[i] = r; vals.remove(i + 1); os.remove(i);
+                } else { i += 1; }
+            }
+        }
+        let reference = vals[0];
+        // an empty intersection is rejected by the compiler (warning); not part of this claim
+        if !cx.assume(!reference.empty && !degenerate) { return; }
+        let range_text = match (reference.lo, reference.hi) { (Some(l), Some(h)) if l == h => format!("{l}"), (Some(l), Some(h)) => format!("{l}..={h}"), (Some(l), None) => format!("{l}.."), (None, Some(h)) => format!("..={h}"), _ => String::new() };
+        let kw = if position == 2 { "size" } else { "value" };
+        let want = if range_text.is_empty() { String::new() } else if marker { format!("{kw} (\"{range_text}\" , extensible)") } else { format!("{kw} (\"{range_text}\")") };
+        let c = format!("({expr}{})", if marker { ", ..." } else { "" });
+        let body = match position { 0 => format!("S ::= SEQUENCE {{ f INTEGER {c} }}"), 1 => format!("A ::= INTEGER {c}"), _ => format!("S ::= SEQUENCE {{ f OCTET STRING (SIZE {c}) }}") };
+        cx.describe(|| body.clone());
+        let src = format!("M DEFINITIONS AUTOMATIC TAGS ::= BEGIN {body} END");
+        let out = crate::Compiler::<crate::generator::rasn::Rasn, _>::new().add_asn_literal(&src).compile_to_string();
+        let Ok(res) = out else { vob!(cx, "C04.pipeline.compiles", false); return; };
+        // intermediate empty intersections (e.g. `0 ^ 5 | 200`) are reported by the compiler as a warning: skip those
+        if !cx.assume(res.warnings.is_empty()) { return; }
+        let g = &res.generated;
+        let scope: String = match position { 1 => struct_or_enum_attrs(g, "A").unwrap_or_default(), _ => item_of(g, "S").and_then(|(_, fs)| fs.into_iter().next()).unwrap_or_default() };
+        let ok = if want.is_empty() { !scope.contains(&format!("{kw} (")) }
+                 else if position == 2 && reference.lo == Some(0) && reference.hi.is_none() && !marker { scope.contains(&want) || !scope.contains("size (") }
+                 else { scope.contains(&want) };
+        vob!(cx, "C04.pipeline.annotation_is_the_per_visible_effective_constraint", ok);
+    }
+    #[cfg(kani)]
+    { let _ = cx; }
+}
+
+/// C02 — type shapes as TEXT through the whole pipeline: SEQUENCE / SET / CHOICE with 1..=`max_n` components, each of one of
+/// nine component types (builtin, reference, collections, inline SEQUENCE / CHOICE / ENUMERATED) and, outside CHOICE,
+/// required / OPTIONAL / DEFAULT; top-level or as an anonymous nested type.  One field or variant per component, in source
+/// order, with the corresponding Rust type; Option for OPTIONAL, a default function for DEFAULT, the `set` mark, and every
+/// inline type hoisted under the derived name with its own components.
+pub fn contract_pipeline_type_shapes<C: Ctx>(cx: &mut C, max_n: usize) {
+    #[cfg(not(kani))]
+    {
+        let kind = cx.choose(3);
+        let nested = cx.any_bool();
+        let n = 1 + cx.choose(max_n);
+        // (source, Rust type with `{}` for the hoisted name, hoisted item's members)
+        let types: [(&str, &str, &[&str]); 9] = [
+            ("BOOLEAN", "bool", &[]), ("INTEGER", "Integer", &[]), ("OCTET STRING", "OctetString", &[]), ("Ref", "Ref", &[]),
+            ("SEQUENCE OF BOOLEAN", "SequenceOf < bool >", &[]), ("SET OF Ref", "SetOf < Ref >", &[]),
+            ("SEQUENCE { a BOOLEAN, b NULL OPTIONAL }", "{}", &["pub a : bool", "pub b : Option < () >"]),
+            ("CHOICE { a BOOLEAN, b NULL }", "{}", &["a (bool)", "b (())"]),
+            ("ENUMERATED { x, y }", "{}", &["x = 0", "y = 1"]),
+        ];
+        let mut comps: Vec<String> = vec![];
+        let mut want: Vec<(String, String, usize, usize)> = vec![]; // field name, rust type, type index, optionality
+        let holder = if nested { "TW" } else { "T" };
+        for i in 0..n {
+            let ti = cx.choose(9);
+            let opt = if kind == 2 { 0 } else { cx.choose(3) };
+            if !cx.assume(opt != 2 || ti < 2) { return; }
+            let (src, rust, _) = types[ti];
+            let name = format!("f{i}");
+            comps.push(format!("{name} {src}{}", match opt { 1 => " OPTIONAL", 2 => if ti == 0 { " DEFAULT TRUE" } else { " DEFAULT 5" }, _ => "" }));
+            let base = rust.replace("{}", &format!("{holder}F{i}"));
+            want.push((name, if opt == 1 { format!("Option < {base} >") } else { base }, ti, opt));
+        }
+        let ty = format!("{} {{ {} }}", ["SEQUENCE", "SET", "CHOICE"][kind], comps.join(", "));
+        let body = if nested { format!("T ::= SEQUENCE {{ w {ty} }}") } else { format!("T ::= {ty}") };
+        cx.describe(|| body.clone());
+        let src = format!("M DEFINITIONS AUTOMATIC TAGS ::= BEGIN Ref ::= NULL {body} END");
+        let out = crate::Compiler::<crate::generator::rasn::Rasn, _>::new().add_asn_literal(&src).compile_to_string();
+        let Ok(res) = out else { vob!(cx, "C02.shapes.compiles", false); return; };
+        if !res.warnings.is_empty() { vob!(cx, "C02.shapes.compiles", false); return; }
+        let g = &res.generated;
+        let Some((_, fields)) = item_of(g, holder) else { vob!(cx, "C02.shapes.compiles", false); return; };
+        let attrs = struct_or_enum_attrs(g, holder).unwrap_or_default();
+        vob!(cx, "C02.shapes.one_member_per_component", fields.len() == n);
+        if fields.len() != n { return; }
+        let mut order_and_types = true; let mut defaults = true; let mut hoisted = true;
+        for (f, (name, rust, ti, opt)) in fields.iter().zip(&want) {
+            let decl_ok = if kind == 2 { f.trim_end().ends_with(&format!("{name} ({rust})")) } else { f.trim_end().ends_with(&format!("pub {name} : {rust}")) };
+            order_and_types = order_and_types && decl_ok;
+            defaults = defaults && (f.contains("default =") == (*opt == 2)) && (*opt != 2 || g.contains(&format!("fn {}_{name}_default () -> {rust}", if nested { "tw" } else { "t" })));
+            let members = types[*ti].2;
+            if !members.is_empty() {
+                let inner = item_of(g, &format!("{holder}F{}", &name[1..]));
+                hoisted = hoisted && matches!(&inner, Some((_, fs)) if fs.len() == members.len() && fs.iter().zip(members.iter()).all(|(x, m)| x.trim_end().ends_with(m)));
+            }
+        }
+        vob!(cx, "C02.shapes.members_in_source_order_with_the_corresponding_rust_type", order_and_types);
+        vob!(cx, "C02.shapes.default_function_exactly_for_default_components", defaults);
+        vob!(cx, "C02.shapes.inline_types_are_hoisted_with_their_own_components", hoisted);
+        vob!(cx, "C02.shapes.set_is_marked_as_set", (attrs.contains("rasn (set") || attrs.contains(", set")) == (kind == 1));
+    }
+    #[cfg(kani)]
+    { let _ = (cx, max_n); }
+}
+pub fn contract_pipeline_type_shapes_quick<C: Ctx>(cx: &mut C) { contract_pipeline_type_shapes(cx, 2) }
+pub fn contract_pipeline_type_shapes_full<C: Ctx>(cx: &mut C) { contract_pipeline_type_shapes(cx, 3) }
+
 /// C02 / C06 — DEFAULT of an INTEGER component, whole pipeline: the default function returns the type of the field, and its
 /// body (a literal, or the constant of a referenced value) has that type.
 pub fn contract_pipeline_integer_defaults<C: Ctx>(cx: &mut C) {
@@ -3081,9 +3222,33 @@ pub fn contract_pipeline_value_assignments<C: Ctx>(cx: &mut C) {
             _ => { let (src, arcs) = [("{ iso member-body 840 }", "1u32 , 2u32 , 840u32"), ("{ itu-t identified-organization 0 5 }", "0u32 , 4u32 , 0u32 , 5u32"), ("{ 1 3 6 1 }", "1u32 , 3u32 , 6u32 , 1u32"), ("{ joint-iso-itu-t 5 }", "2u32 , 5u32")][cx.choose(4)];
                    (format!("v OBJECT IDENTIFIER ::= {src}"), format!("Oid :: const_new (& [{arcs}])")) }
         };
+        // simple kinds are also written as a DEFAULT and through a chain of type references
+        let position = if kind < 10 { cx.choose(3) } else { 0 };
+        // an OBJECT IDENTIFIER DEFAULT is refused with a warning ("currently unsupported"): loud, not part of this claim
+        if !cx.assume(!(kind == 9 && position == 1)) { return; }
+        let (decl, want) = if position == 0 { (decl, want) } else {
+            let (ty, val) = { let mut p = decl[2..].splitn(2, " ::= "); (p.next().unwrap_or("").to_string(), p.next().unwrap_or("").to_string()) };
+            let expr = if want.starts_with("pub const V") { want.split(" = ").nth(1).unwrap_or("").trim_end_matches(" ;").to_string() } else { want.clone() };
+            if position == 1 { (format!("S ::= SEQUENCE {{ f {ty} DEFAULT {val} }}"), format!("fn s_f_default () -> @@ {expr} }}")) }
+            // (mixed-case type names: an all-capitals name followed by `{ .. }` is lexed as an information object of a CLASS)
+            else { (format!("Aa ::= {ty} Bb ::= Aa v Bb ::= {val}"), expr) }
+        };
         let src = format!("M DEFINITIONS AUTOMATIC TAGS ::= BEGIN {decl} END");
         cx.describe(|| decl.clone());
         match crate::Compiler::<crate::generator::rasn::Rasn, _>::new().add_asn_literal(&src).compile_to_string() {
+            Ok(res) if position == 1 => {
+                // the body of the default function is the expression that denotes the value
+                let expr = want.split("@@ ").nth(1).unwrap_or("").trim_end_matches(" }").to_string();
+                let body = res.generated.split("fn s_f_default () -> ").nth(1).and_then(|r| r.splitn(2, '{').nth(1)).map(|r| r.split("} ").next().unwrap_or("").trim().to_string()).unwrap_or_default();
+                vob!(cx, "C07.pipeline.default_denotes_the_source_value", res.warnings.is_empty() && !expr.is_empty() && body.contains(&expr));
+            }
+            Ok(res) if position == 2 => {
+                let lazy = format!("LazyLock < Bb > = LazyLock :: new (|| Bb (Aa ({}", want);
+                let lazy_octets = format!("LazyLock < Bb > = LazyLock :: new (|| Bb (Aa (< OctetString as From < & 'static [u8] >> :: {}", want);
+                let constant = format!("pub const V : Bb = Bb (Aa ({})) ;", want);
+                let found = res.generated.contains(&lazy) || res.generated.contains(&lazy_octets) || res.generated.contains(&constant);
+                vob!(cx, "C07.pipeline.value_through_a_chain_of_type_references_denotes_the_source_value", res.warnings.is_empty() && found);
+            }
             Ok(res) if kind == 13 => { vob!(cx, "C07.pipeline.value_of_a_named_collection_type_is_built_from_its_element_type", res.warnings.is_empty() && res.generated.contains(&want)); }
             Ok(res) => { vob!(cx, "C07.pipeline.value_assignment_denotes_the_source_value", res.warnings.is_empty() && res.generated.contains(&want)); }
             Err(_) => { vob!(cx, "C07.pipeline.value_assignment_compiles", false); }
